@@ -147,18 +147,22 @@ def fixMonths (years months : Int) : Int × Int :=
     (years + (a / 12) * s, (a % 12) * s)
   else (years, months)
 
+/-- year and month of `dt + relativedelta(years=…, months=…)` as `relativedelta.__add__` computes them:
+    `year = dt.year + years`, then `month += months` with a carry of at most one year -/
+def carryYM (y m years months : Int) : Int × Int :=
+  let fm := fixMonths years months
+  let year0 := y + fm.1
+  if fm.2 ≠ 0 then
+    let month1 := m + fm.2
+    if month1 > 12 then (year0 + 1, month1 - 12)
+    else if month1 < 1 then (year0 - 1, month1 + 12)
+    else (year0, month1)
+  else (year0, m)
+
 /-- the date part of `dt + relativedelta(years=…, months=…, day=absDay)`: month carry, day clipped to
     the length of the target month; `datetime.replace` raises ValueError outside years 1 … 9999 -/
 def addRel (c : YMD) (years months : Int) (absDay : Option Int) : Res YMD :=
-  let fm := fixMonths years months
-  let year0 := c.y + fm.1
-  let ym : Int × Int :=
-    if fm.2 ≠ 0 then
-      let month1 := c.m + fm.2
-      if month1 > 12 then (year0 + 1, month1 - 12)
-      else if month1 < 1 then (year0 - 1, month1 + 12)
-      else (year0, month1)
-    else (year0, c.m)
+  let ym := carryYM c.y c.m years months
   let day := min (daysInMonth ym.1 ym.2) (absDay.getD c.d)
   if ym.1 < 1 ∨ ym.1 > 9999 then .crash .valueError else .ok ⟨ym.1, ym.2, day⟩
 
